@@ -70,7 +70,8 @@ func (i *Interceptors) NewSegment(val string) (*Segment, error) {
 
 	separator := strings.IndexByte(val, separatorByte)
 	if start > end || start+1 == end || // }{ 或是  {}
-		(separator > 0 && start+1 == separator) { // {:rule}
+		(separator > 0 && start+1 == separator) || // {:rule}
+		(val[start+1] == ignoreByte && (start+2 == end || start+2 == separator)) { // {-} 或是 {-:rule}
 		return nil, fmt.Errorf("无效的语法：%s", val)
 	}
 
@@ -82,7 +83,7 @@ func (i *Interceptors) NewSegment(val string) (*Segment, error) {
 
 		seg.Type = Named
 		seg.Suffix = val[end+1:]
-		seg.Endpoint = val[len(val)-1] == endByte
+		seg.Endpoint = end == len(val)-1 // 参数之后没有其它内容，而不是以 } 字符结尾，比如 {id}/x} 并不是。
 		seg.matcher = func(string) bool { return true }
 		seg.cleanName()
 		seg.calcAmbiguousLength()
@@ -95,7 +96,7 @@ func (i *Interceptors) NewSegment(val string) (*Segment, error) {
 		seg.Name = val[start+1 : separator]
 		seg.cleanName()
 		seg.Suffix = val[end+1:]
-		seg.Endpoint = val[len(val)-1] == endByte
+		seg.Endpoint = end == len(val)-1 // 参数之后没有其它内容，而不是以 } 字符结尾，比如 {id}/x} 并不是。
 		seg.matcher = matcher
 		seg.calcAmbiguousLength()
 		return seg, nil
